@@ -363,4 +363,5 @@ def targets():      # noqa: F811
     # shared with C05: the table `parse` prints (DataSet.to_dataframe) holds f / Re Z / Im Z of the requested subset under headers
     # that column detection recognises -- so the printed table is itself a parseable file
     from . import lineparsers, c05
-    return _targets_without_line_parsers() + lineparsers.targets() + [c05.target_to_dataframe()]
+    # ... and every data set `_split_sweeps` builds goes through the constructor (ascending files are reversed, pairs kept together)
+    return _targets_without_line_parsers() + lineparsers.targets() + [c05.target_to_dataframe()] + [t for t in c05.targets() if "DataSet.__init__" in t[0]]
